@@ -282,6 +282,7 @@ func (s *SpecValidator) validateDuplicatePropertyNames() *Result {
 			for _, v := range dups {
 				pns = append(pns, v.Definition+"."+v.Name)
 			}
+			sort.Strings(pns) // properties are met in map order: report them in a stable one
 			res.AddErrors(duplicatePropertiesMsg(k, pns))
 		}
 
